@@ -410,6 +410,8 @@ class Generator:
             body = R.r18_array_for(sig, body, self.x.array_fields(self.x.impl_self(impl)), log)
         if 'r19' in e.opts:
             body = R.r19_while_let_ref_lit(body, log)
+        if 'r23' in e.opts:
+            body = R.r23_digits_prefix_collect(body, log)
         if 'rename' in e.opts:
             mp = dict(kv.split(':') for kv in e.opts['rename'].split(','))
             both(R.rename_idents, mp, log)
